@@ -273,37 +273,80 @@ def c08(tapes, params):
         except (rc.DecodeError, struct.error, IndexError, KeyError, ValueError, UnicodeError):
             return []
 
+    def strictly_wellformed(f):
+        """Does the frame decode with every length/count/size field consistent?"""
+        if f.command not in (rc.SEND_RR, rc.SEND_UNIT):
+            return True             # carries no request that could write
+        try:
+            items = rc.dec_send_data(f, strict=True)
+            rc.need(len(items) == 2, 'two items')
+            body = items[1][1]
+            if items[1][0] == 0x00B1:
+                body = body[2:]
+            rc.dec_request(body, lenient=False)
+            return True
+        except (rc.DecodeError, struct.error, IndexError, KeyError, ValueError, UnicodeError):
+            return False
+
+    def sids_of(ops):
+        out = set()
+        for op in ops:
+            try:
+                sid, found = w.model.resolve(op['ref'], tag_service=op['kind'] not in ('gas', 'sas'))
+                if sid is not None:
+                    out.add(sid)
+            except Exception:       # noqa: BLE001
+                pass
+        return out
+
     def explain(frames, real_differs, extra=()):
-        """Some subset (in order) of the write requests spelled by the newly completed frames
-        (a bundle counts member by member), executed with the model's semantics, must produce the
-        observed state.  Returns True and leaves the model there."""
+        """Tier 1 (exact): some subset (in order) of the write requests spelled by the newly completed
+        frames (a bundle counts member by member) or by the attack frames before mutation, executed with
+        the model's semantics, produces the observed state.  Tier 2 (target only) applies when a completed
+        frame is NOT well-formed under a strict reading, i.e. the simulator accepted something sloppy: the
+        changed tags must then all be ones that the frame's own (leniently read or pre-mutation) write
+        requests address -- which values a sloppy frame yields is not judged, a change to any other tag
+        still is.  Returns 'exact', 'target' or None; leaves the model at the observed state."""
         base = w.model.snapshot()
         ops = []
         for f in frames:
             ops += frame_writes(f)
-        # the writes the frame spelled before it was mutated: a mutation in a field the simulator
-        # tolerates (a size, pad or reserved field) leaves them in force
         for o in extra:
             if o not in ops:
                 ops.append(o)
-        if not ops:
-            return False
-        if len(ops) <= 10:
-            masks = range(1, 1 << len(ops))
-        else:
-            masks = [(1 << k) - 1 for k in range(1, len(ops) + 1)]       # prefixes only
-        for mask in masks:
-            w.model.restore(base)
-            for b, op in enumerate(ops):
-                if (mask >> b) & 1:
-                    try:
-                        w.model.apply(op)
-                    except Exception:
-                        pass
-            if not real_differs():
-                return True
+        if ops:
+            if len(ops) <= 10:
+                masks = range(1, 1 << len(ops))
+            else:
+                masks = [(1 << k) - 1 for k in range(1, len(ops) + 1)]       # prefixes only
+            for mask in masks:
+                w.model.restore(base)
+                for b, op in enumerate(ops):
+                    if (mask >> b) & 1:
+                        try:
+                            w.model.apply(op)
+                        except Exception:       # noqa: BLE001
+                            pass
+                if not real_differs():
+                    return 'exact'
         w.model.restore(base)
-        return False
+        if frames and not all(strictly_wellformed(f) for f in frames):
+            targets = sids_of(ops)
+            changed = set(x[0] for x in real_differs())
+            if changed and changed <= targets:
+                real = w.peek()
+                from ref.model import convert
+                for sid in changed:
+                    t = w.model.stype[sid]
+                    try:
+                        w.model.store[sid] = [convert(t, v) for v in real[sid]]
+                    except Exception:       # noqa: BLE001
+                        w.model.restore(base)
+                        return None
+                if not real_differs():
+                    return 'target'
+                w.model.restore(base)
+        return None
 
     def attacker():
         a = RefSession(w, 'attacker', chunk_mode='whole')
@@ -383,13 +426,19 @@ def c08(tapes, params):
             a.stream = rest
             differs = lambda: [x for x in w.state_diff() if x[0] != victim_sid]
             d = differs()
+            a.orig_acc = getattr(a, 'orig_acc', []) + orig_writes
             if d:
-                if not explain(newframes[:6], differs, orig_writes):
+                how_explained = explain(newframes[:6], differs, a.orig_acc)
+                if how_explained:
+                    stats['explained_' + how_explained] = stats.get('explained_' + how_explained, 0) + 1
+                if not how_explained:
                     w.violation('c08-unexplained-change', 'after %s mutated by %s (%s): tags changed %r but the delivered bytes hold no '
                                 'complete well-formed write with that effect' % (what, how, data.hex(), d[:3]),
                                 mutation=how.split(' ')[0])
                     raise Violation()
                 stats['explained_changes'] += 1
+            if not rest:
+                a.orig_acc = []         # no partial frame is pending on this connection
             if g.chance(1, 3, 'probe?'):
                 probe('after attack %d (%s, %s)' % (n, what, how))
         probe('at the end')
